@@ -86,6 +86,9 @@ def run_case(tree, spec, extra, cfgname, earlier=()):
     import osyris
 
     extra, _, form = extra.partition(":")
+    others = None
+    if form.startswith("others-"):
+        others, form = form[len("others-"):], ""
     out = build(tree, cfgname)
     L = tree.levelmax
     Lstar = max(l for l in range(1, L + 1) if level_accepts(spec, l))
@@ -116,7 +119,15 @@ def run_case(tree, spec, extra, cfgname, earlier=()):
                     _load.call_load(ds, **({} if e_spec is None else {"select": {"mesh": {"level": level_pred(tuple(e_spec))}}}))
                 text = _load.call_load(ds, select={"mesh": sel})
             else:
-                ds, text = _load.load(d, out.nout, select={"mesh": sel})
+                # other groups named in the same select dictionary, before or after "mesh"
+                full_select = {"mesh": sel}
+                if others == "after":
+                    full_select = {"mesh": sel, "part": {}, "sink": False}
+                elif others == "before":
+                    full_select = {"sink": {}, "part": False, "mesh": sel}
+                elif others == "after-flags":
+                    full_select = {"mesh": sel, "part": ["mass"]}
+                ds, text = _load.load(d, out.nout, select=full_select)
         except Exception as e:
             import traceback
 
@@ -141,7 +152,7 @@ def run_case(tree, spec, extra, cfgname, earlier=()):
         if cover is not None and not np.all(cover == 1):
             problems.append(("tiling-holes-or-overlaps" + (":cap-below-refinement" if capped else ""),
                              {"holes": int(np.sum(cover == 0)), "overlaps": int(np.sum(cover > 1)), "Lstar": Lstar}))
-    if cfgname.endswith("part-sink"):
+    if cfgname.endswith("part-sink") and others is None:
         if "part" not in ds or "sink" not in ds:
             problems.append(("other-groups-missing", {"groups": list(ds.keys())}))
         elif len(ds["part"]["mass"]) != 3:
@@ -222,6 +233,12 @@ def cases(thorough):
             for earlier, spec in (([None], ("le", L - 1)), ([["le", L - 1]], ("le", L)), ([["le", 1]], ("between", 0, L + 1)), ([["le", L]], ("le", 1)),
                                   ([None, ["le", 1]], ("le", L - 1)), ([["eq", L]], ("le", L - 1))):
                 yield label, t, spec, "none", "1cpu", earlier
+    # the level predicate next to entries for other groups in the select dictionary (output with particles and sinks)
+    for others in ("after", "before", "after-flags"):
+        for label, trees in fams:
+            for t in [t for t in trees if any(l < t.levelmax for (l, _c) in t.refined)][:: max(1, len(trees) // 5)][:5]:
+                for spec in level_specs(t.levelmax)[::3]:
+                    yield label, t, spec, "none:others-" + others, "1cpu-part-sink"
     for form in ("partial", "callable-object", "bound-method", "def"):
         for label, trees in fams[:3]:
             for t in trees[:: max(1, len(trees) // 3)][:3]:
